@@ -89,7 +89,7 @@ def probes(log, stages=True):
             setattr(cls, name, orig)
 
 
-def compute(cfg, seed=0, scheduler="synchronous", num_workers=None, pool=None, output_file=None, write_stages=False, with_probes=True, freeze=True, quiet=True, to_plot=None):
+def compute(cfg, seed=0, scheduler="synchronous", num_workers=None, pool=None, output_file=None, write_stages=False, with_probes=True, freeze=True, quiet=True, to_plot=None, verbose=False):
     """Run the real compute(); returns (table or None, Log). Exceptions are stored in log.exception."""
     import dask
     import nuspacesim
@@ -116,7 +116,7 @@ def compute(cfg, seed=0, scheduler="synchronous", num_workers=None, pool=None, o
             kw_ = {}
             if to_plot is not None:
                 kw_["to_plot"] = list(to_plot)
-            sim = cm.compute(cfg, verbose=False, output_file=output_file, write_stages=write_stages, **kw_)
+            sim = cm.compute(cfg, verbose=verbose, output_file=output_file, write_stages=write_stages, **kw_)
             if to_plot is not None:
                 import matplotlib.pyplot as plt
 
